@@ -440,6 +440,47 @@ func c17(c *h.Ctx) {
 		jsDocCheck(c, b, plain, deco, sizes, ncm > 0 || d.escQuote || d.markerInStr)
 	}
 
+	// 2b. long runs without any marker before a comment (a pretty-printed or padded document): the comment starts at every
+	// offset around the sizes implementations buffer or scan by (1024, 2048, 3072, 4096, 8192), counted from the start of
+	// the input, from the end of a string, and from the end of an earlier comment
+	{
+		var offs []int
+		for _, base := range []int{512, 1024, 2048, 3072, 4096, 8192} {
+			for d := -3; d <= 2; d++ {
+				if c.Thorough() || base <= 4096 {
+					offs = append(offs, base+d)
+				}
+			}
+		}
+		k := 0
+		for _, off := range offs {
+			for _, cm := range []string{"//c\n", "/*c*/", "// it's \"quoted\"\n", "/* ' */"} {
+				for before := 0; before < 3; before++ {
+					k++
+					if !c.Thorough() && k%2 == 0 {
+						continue
+					}
+					// the run: off bytes of white space and digits, ending right where the comment starts
+					headP, headD := "[", "["
+					switch before {
+					case 1:
+						headP, headD = "[\"s\",", "[\"s\","
+					case 2:
+						headP, headD = "[", "/*first*/["
+					}
+					pad := off - 1
+					run := strings.Repeat(" ", pad/2) + "7," + strings.Repeat(" ", pad-pad/2-2)
+					for shift := 0; shift < 2; shift++ {
+						rn := run[shift:]
+						plain := []byte(headP + rn + "1]")
+						deco := []byte(headD + rn + cm + "1]")
+						jsDocCheck(c, fmt.Sprintf("long-run/before=%d", before), plain, deco, randSizes(r, len(deco)), true)
+					}
+				}
+			}
+		}
+	}
+
 	// 3. malformed stream: random marker soup, mutated documents — model = implementation incl. error status,
 	//    and segmentation freedom on the implementation.
 	m := c.N(3000, 100000)
